@@ -154,12 +154,8 @@ theorem C07_strings_no_panic (cmd : String) (args : List Str) (out : Out)
   · unfold trimWith; split <;> simp
   · unfold trimWith; split <;> simp
   · unfold trimWith; split <;> simp
-  · unfold caseWith; split
-    · simp
-    · split <;> simp
-  · unfold caseWith; split
-    · simp
-    · split <;> simp
+  · unfold caseWith; split <;> simp
+  · unfold caseWith; split <;> simp
   · unfold range; split
     · split
       · split <;> simp
